@@ -255,9 +255,11 @@ impl Mul<usize> for ZatBalance {
     type Output = Option<ZatBalance>;
 
     fn mul(self, rhs: usize) -> Option<ZatBalance> {
-        let rhs: i64 = rhs.try_into().ok()?;
-        self.0
-            .checked_mul(rhs)
+        // The product of a 64-bit balance and a (at most 64-bit) multiplier cannot overflow an
+        // `i128`, so the range check below sees the exact result.
+        let product = i128::from(self.0).checked_mul(i128::try_from(rhs).ok()?)?;
+        i64::try_from(product)
+            .ok()
             .and_then(|i| ZatBalance::try_from(i).ok())
     }
 }
